@@ -65,7 +65,7 @@ def load_section_plugins(entry_point_group: str) -> Tuple[SectionPlugin]:
     }
     for plugin in plugins.values():
         for before in plugin.before:
-            dependencies[before].add(plugin.section)
+            dependencies.setdefault(before, set()).add(plugin.section)
     return tuple(
         plugins[plugin_name]
         for plugin_name in toposort_flatten(dependencies, sort=False)
